@@ -111,13 +111,18 @@ def main(argv=None):
         i += 1
         if a.runs is not None and i >= a.runs:
             break
-        if (i % a.nworkers if a.op else P.owner(i, a.nworkers)) != a.worker:
-            continue
         if a.runs is None and time.monotonic() - t0 > a.budget:
             break
-        last_i = i
         st = util.Streams(a.seed, a.prop, i)
-        case = P.gen(st, i, a.tier, op=a.op) if a.op else P.gen(st, i, a.tier)
+        if P.shard is not None:
+            case = P.gen(st, i, a.tier, op=a.op) if a.op else P.gen(st, i, a.tier)
+            if util.derive_seed("shard", P.shard(case)) % a.nworkers != a.worker:
+                continue
+        else:
+            if (i % a.nworkers if a.op else P.owner(i, a.nworkers)) != a.worker:
+                continue
+            case = P.gen(st, i, a.tier, op=a.op) if a.op else P.gen(st, i, a.tier)
+        last_i = i
         sched = sched_for(a.seed, a.prop, i, st)
         want, why = numpy_reference(case)
         C["cases"] += 1
